@@ -120,6 +120,10 @@ def stage_gen():
 # ---------------------------------------------------------------- S1: builds
 def stage_harness(features=None, target_subdir=None):
     with Lock("cargo"):
+        # phase 1 of the translator: the IR printer the harness compiles (from src/ir/mod.rs)
+        rc, out, dt = sh([sys.executable, os.path.join(VERIF, "translator", "gen_rust.py"), "--repo", REPO, "--out", os.path.join(HARNESS, "src", "gen_ir_print.rs")], timeout=120)
+        if rc != 0:
+            return False, "translator (IR printer) refused: " + out[-1500:], dt
         lock_src = os.path.join(REPO, "Cargo.lock")
         lock_dst = os.path.join(HARNESS, "Cargo.lock")
         if not os.path.exists(lock_dst):
